@@ -1,0 +1,54 @@
+//go:build verif
+
+// Contracts for package swu, checked by /verif (vcgo).  Comment-only; excluded from normal builds.
+
+package swu
+
+//@ func IsoMap
+//@   props C15
+//@   noalias X, Y
+//@   option field
+//@   fork xd@xDenIsZero: xDenIsZero == 0
+//@   fork yd@yDenIsZero: yDenIsZero == 0
+//@   ensures result2 == ite(iso_xden(val(X)) != 0 && iso_yden(val(X)) != 0, 1, 0)
+//@   ensures val(result0) == iso_xnum(val(X)) * inv(iso_xden(val(X)))
+//@   ensures val(result1) == val(Y) * iso_ynum(val(X)) * inv(iso_yden(val(X)))
+//@   ensures (result2 == 1 && val(Y)*val(Y) == swu_g(val(X))) ==> onaff(val(result0), val(result1))
+//@   fresh result0, result1
+//@
+//@ func sgn0
+//@   props C15
+//@   inline
+//@
+//@ func MapToCurveSimpleSWU
+//@   props C15
+//@   timeout 60
+//@   option field
+//@   fork exc@sel: sel == 0
+//@   apply t4nz@tv6#1: mul_nonzero_P(swu_A(), 0 - swu_D(val(u)))
+//@   apply unz@x: swu_num_nonzero(val(tv3), val(tv4))
+//@   apply t4sq@x: mul_nonzero_P(val(tv4), val(tv4))
+//@   apply t4cu@x: mul_nonzero_P(val(tv4)*val(tv4), val(tv4))
+//@   assert defs@x if sel == 0 abstract(tv3, tv4, tv2, tv6): val(tv4) != 0 && val(tv6) != 0 && val(tv2) != 0 && fact(val(tv3) == swu_B() * (swu_D(val(u)) + 1)) && fact(val(tv4) == ite(swu_D(val(u)) == 0, swu_A() * swu_Z(), 0 - swu_A() * swu_D(val(u)))) && fact(val(tv6) == val(tv4)*val(tv4)*val(tv4)) && fact(val(tv2) == val(tv3)*val(tv3)*val(tv3) + swu_A()*val(tv3)*val(tv4)*val(tv4) + swu_B()*val(tv4)*val(tv4)*val(tv4))
+//@   assert excnum@x if sel == 1 abstract(tv2): rewrite(val(tv2), swu_B()*swu_B()*swu_B() + swu_A()*swu_B()*(swu_A()*swu_Z())*(swu_A()*swu_Z()) + swu_B()*(swu_A()*swu_Z())*(swu_A()*swu_Z())*(swu_A()*swu_Z()))
+//@   apply srs@y1: sqrt_ratio_sem(val(tv2), val(tv6), swu_c2())
+//@   fork qr@isGx1Square: isGx1Square == 1
+//@   assert sq@y if sel == 0 abstract(y1): iff(isGx1Square == 1, issq(val(tv2)*inv(val(tv6)))) && implies(isGx1Square == 1, fact(val(y1)*val(y1)*val(tv6) == val(tv2))) && implies(isGx1Square != 1, fact(val(y1)*val(y1)*val(tv6) == swu_Z()*val(tv2)))
+//@   assert gx1@y if sel == 0: val(tv2)*inv(val(tv6)) == swu_g(swu_x1(val(u)))
+//@   apply gxc@y: issq_cong(val(tv2)*inv(val(tv6)), swu_g(swu_x1(val(u))))
+//@   assert qrspec@y if sel == 0: iff(isGx1Square == 1, issq(swu_g(swu_x1(val(u)))))
+//@   apply eul@y: euler_sqrt_P(swu_g(swu_B() * inv(fp(swu_Z() * swu_A()))))
+//@   apply np@e1: neg_parity_P(val(y))
+//@   proves val(result1)*val(result1) == swu_g(val(result0))
+//@   proves val(result0) == ite(issq(swu_g(swu_x1(val(u)))), swu_x1(val(u)), swu_Z()*val(u)*val(u)*swu_x1(val(u)))
+//@   proves lift(val(result1)) % 2 == lift(val(u)) % 2 || val(result1) == 0
+//@   proves val(result1)*val(result1) == swu_g(swu_x(val(u)))
+//@   ensures val(result0) == swu_x(val(u))
+//@   ensures val(result1) == swu_y(val(u))
+//@   using swu_y_def(val(u))
+//@   using swu_g_nonzero(val(result0))
+//@   using sqrt_unique_P(swu_g(swu_x(val(u))), swu_y(val(u)), val(result1))
+//@   using swu_g_nonzero(swu_x(val(u)))
+//@   using neg_parity_P(swu_y(val(u)))
+//@   using mul_zero_P(swu_y(val(u)), swu_y(val(u)))
+//@   fresh result0, result1
